@@ -284,6 +284,11 @@ func checkWritten(p *Pkg, info implInfo, v reflect.Value, raw []byte, rec *Recor
 		if !ok {
 			return "header-has-no-field", fmt.Sprintf("the documented header %s has no field in the response type %s: a handler cannot set it", name, v.Type())
 		}
+		// a header the document requires cannot be left out: its field is not an optional one
+		// (deprecated or not - `deprecated` is an annotation)
+		if rh := p.Doc.ResolveHeader(h); rh != nil && rh.Required && isOptionStruct(fv.Type()) && !strings.HasPrefix(fv.Type().Name(), "Nullable") {
+			return "required-header-is-optional", fmt.Sprintf("the header %s is required, but its field in %s is optional (%s): a handler can leave it out", name, v.Type(), fv.Type())
+		}
 		set, vals := FieldValues(fv)
 		got := hdr.Values(name)
 		if !set {
